@@ -612,6 +612,12 @@ def c18(c):
                 runs.append(dict(unit="c18_plain", label="c18_helgrind[%s,%dthr,rep%d]" % (bn, nt, rep), args=[b, nt, 100 + rep], env=e, wrap=HG, timeout=3600))
     threads = [2, 4, 8] if not c.thorough else [2, 4, 8, 16]
     reps = 3 if not c.thorough else 6
+    # third TSan build: embedder-provided TLS (only the noop and dylib backends have that configuration)
+    units.append(dict(name="c18_tsan_embtls", srcs=[D + "c18_threads.cpp"], build="tsan", defs=EXC + ["RLBOX_EMBEDDER_PROVIDES_TLS_STATIC_VARIABLES"], libs=["-ldl"], needs=["libguest1.so", "libguest2.so"]))
+    for b, bn in [(1, "noop"), (2, "dylib")]:
+        for nt in ([4, 8] if not c.thorough else [2, 4, 8, 16]):
+            for rep in range(2 if not c.thorough else 4):
+                runs.append(dict(unit="c18_tsan_embtls", label="c18_tsan_embtls[%s,%dthr,rep%d]" % (bn, nt, rep), args=[b, nt, 200 + rep], env=guest_env(c), timeout=1800))
     for unit in ("c18_tsan", "c18_tsan_lockwrap"):
         for b, bn in enumerate(["model", "noop", "dylib"]):
             for nt in threads:
@@ -619,7 +625,7 @@ def c18(c):
                     runs.append(dict(unit=unit, label="%s[%s,%dthr,rep%d]" % (unit, bn, nt, rep), args=[b, nt, rep], env=guest_env(c), timeout=1800))
     return dict(units=units, runs=runs, max_parallel=3, evidence=dict(
         level="exploration",
-        rule="execution = (backend in {model FINDER, noop, dylib}, 2/4/8(/16) threads, repetition, lock build). Every thread runs a PRNG sequence of "
+        rule="execution = (backend in {model FINDER, noop, dylib}, 2/4/8(/16) threads, repetition, build in {plain locks, lock wrapper, embedder-provided TLS (noop, dylib)}). Every thread runs a PRNG sequence of "
              "6000 (quick) / 40000 (thorough) operations on its own two sandbox objects of the same backend type: create, destroy, re-create, "
              "allocation and access, example-based pointer store/load (the FINDER model walks the shared live-sandbox registry on each), pointer "
              "arithmetic, by-name invocation, callback through the sandbox, register/unregister, app pointers -- so creates/destroys constantly "
